@@ -62,11 +62,12 @@ func runWD(c *Ctx, s *Sink) {
 		} else {
 			signalType = info.TypeOf(res.List[len(res.List)-1].Type)
 			// the goroutine: order of Write / Close / signal (close(ch) or Done())
-			var lit *ast.FuncLit
+			var lit *ast.BlockStmt
+			wdDefs0 := collectDefs(info, fd)
 			ast.Inspect(fd.Body, func(n ast.Node) bool {
-				if g, ok := n.(*ast.GoStmt); ok {
-					if fl, ok := g.Call.Fun.(*ast.FuncLit); ok && lit == nil {
-						lit = fl
+				if g, ok := n.(*ast.GoStmt); ok && lit == nil {
+					if body, binfo := c.goTarget(info, wdDefs0, g); body != nil {
+						lit, info = body, binfo
 					}
 				}
 				return true
@@ -76,7 +77,7 @@ func runWD(c *Ctx, s *Sink) {
 			} else {
 				var lastWrite, closePos, sigPos token.Pos
 				wdDefs := collectDefs(info, fd)
-				for _, st := range lit.Body.List {
+				for _, st := range lit.List {
 					ast.Inspect(st, func(n ast.Node) bool {
 						call, ok := n.(*ast.CallExpr)
 						if !ok {
